@@ -56,7 +56,8 @@ def required(tier):
     cl = ['kind:ok', 'kind:unknown-airport', 'kind:above-cruise', 'kind:out-of-envelope',
           'kind:too-short', 'kind:missing-weather', 'kind:outside-weather-domain',
           'after:failure->ok', 'after:ok->ok', 'after:failure->failure', 'weather:on',
-          'mass-iteration:converged', 'starting-mass:given', 'identical-to-fresh-builder',
+          'mass-iteration:converged', 'mass-iteration:first-pass-residual-negative',
+          'table:low-ceiling-15k', 'table:thirsty-climb', 'starting-mass:given', 'identical-to-fresh-builder',
           'same-exception-as-fresh-builder']
     return {'classes': cl, 'evaluations': 300}
 
@@ -78,7 +79,11 @@ def run_shard(spec, rec):
     w = world.write_world(hdir)
     world.load_config(hdir)
     base = fg.sample_model_dict()
-    pm = PerformanceModel.from_data(base)
+    pms = {'sample': PerformanceModel.from_data(base),
+           'low-ceiling-15k': PerformanceModel.from_data(fg.special_model(base, ceiling_ft=15000)),
+           'low-ceiling-19k': PerformanceModel.from_data(fg.special_model(base, ceiling_ft=19000)),
+           'thirsty-climb': PerformanceModel.from_data(fg.special_model(base, climb_ff_scale=4.0))}
+    pm = pms['sample']
     wx_day = pd.Timestamp('2024-09-01T12:00:00Z')
 
     def mission(o, d, lf, t=None, fid=None):
@@ -100,11 +105,18 @@ def run_shard(spec, rec):
                 o, d = rng.choice([('BOS', 'ATL'), ('ATL', 'BOS'), ('JFK', 'ATL')])
                 m = mission(o, d, rng.uniform(0.6, 1.0), wx_day, rng.choice([None, 77]))
             else:
-                for _ in range(50):
-                    m, rk = fg.gen_mission(rng, w, rng.choice(['ordinary', 'ordinary',
-                                                               'antimeridian', 'polar']))
-                    if rk in ('ordinary', 'antimeridian', 'polar'):
-                        break
+                if rng.random() < 0.35:
+                    o, d = rng.choice([('DEN', 'ABQ'), ('ABQ', 'DEN'), ('DEN', 'LAX'), ('BOS', 'JFK'),
+                                       ('XE2', 'XN4'), ('ABQ', 'LAS'), ('JFK', 'IAD'),
+                                       ('DEN', 'ORD'), ('SFO', 'LAX')])
+                    m = mission(o, d, 0.8)
+                    rk = 'named'
+                else:
+                    for _ in range(50):
+                        m, rk = fg.gen_mission(rng, w, rng.choice(['ordinary', 'ordinary',
+                                                                   'antimeridian', 'polar']))
+                        if rk in ('ordinary', 'antimeridian', 'polar'):
+                            break
                 m = mission(m.origin, m.destination, rng.uniform(0.6, 1.0), None,
                             rng.choice([None, 5, 99]))
                 if rng.random() < 0.25:
@@ -125,7 +137,18 @@ def run_shard(spec, rec):
             m = mission('BOS', 'LAX', 0.9, wx_day)
         return kind, m, sm
 
-    def outcome(builder, m, sm):
+    from AEIC.trajectories.builders.base import Builder
+    residuals = []
+    orig_iter = Builder._fly_iteration
+
+    def recording_iteration(self):
+        t, res = orig_iter(self)
+        residuals.append(float(res))
+        return t, res
+    Builder._fly_iteration = recording_iteration
+
+    def outcome(builder, m, sm, pm):
+        residuals.clear()
         try:
             t = builder.fly(pm, m, starting_mass=sm) if sm is not None else builder.fly(pm, m)
             return ('ok', t)
@@ -150,6 +173,9 @@ def run_shard(spec, rec):
             rng = random.Random(f"{spec['seed']}-{k}")
             case = {'spec': {'seed': spec['seed'], 'n': spec['n']}, 'k': k}
             use_weather = rng.random() < 0.3
+            pm_name = 'sample' if use_weather else rng.choice(
+                ['sample', 'sample', 'low-ceiling-15k', 'low-ceiling-19k', 'thirsty-climb'])
+            pm = pms[pm_name]
             iterate = rng.random() < 0.5
             reltol = rng.choice([1e-2, 1e-3, 1e-5, 1e-9])
             iters = rng.choice([2, 5, 25])
@@ -164,15 +190,17 @@ def run_shard(spec, rec):
                     legacy_options=tb.LegacyOptions(frac_step_clm=frac, frac_step_crz=frac,
                                                     frac_step_des=frac))
             opts = {'iterate_mass': iterate, 'reltol': reltol, 'max_iters': iters,
-                    'use_weather': use_weather, 'frac_step': frac}
+                    'use_weather': use_weather, 'frac_step': frac, 'table': pm_name}
             veteran = mk()
             prev = None
             log = []
             try:
                 for step in range(rng.randint(3, 5) if use_weather else rng.randint(3, 12)):
                     kind, m, sm = gen_call(rng, use_weather)
-                    got = outcome(veteran, m, sm)
-                    ref = outcome(mk(), m, sm)
+                    got = outcome(veteran, m, sm, pm)
+                    first_res = residuals[0] if residuals else None
+                    n_passes = len(residuals)
+                    ref = outcome(mk(), m, sm, pm)
                     rec.ev()
                     det = {'step': step, 'kind': kind, 'mission': [m.origin, m.destination],
                            'starting_mass': sm, 'options': opts, 'history': log[-8:]}
@@ -197,6 +225,11 @@ def run_shard(spec, rec):
                                                'leftover trip fuel exceeds the tolerance',
                                                {'residual': res, **det})
                             rec.cls('mass-iteration:converged')
+                            if first_res is not None and first_res < -reltol:
+                                rec.cls('mass-iteration:first-pass-residual-negative')
+                            if n_passes > 1:
+                                rec.cls('mass-iteration:several-passes')
+                            rec.cls(f'table:{pm_name}')
                         if kind != 'ok':
                             rec.cls(f'unexpectedly-flown:{kind}')
                         this = 'ok'
@@ -250,6 +283,7 @@ def run_shard(spec, rec):
             except Mismatch as mm:
                 rec.violation(mm.mechanism, mm.detail, case)
     finally:
+        Builder._fly_iteration = orig_iter
         Config.reset()
         shutil.rmtree(hdir, ignore_errors=True)
 
